@@ -701,6 +701,51 @@ func c14Path(r *core.Run, p *core.Program) {
 	}
 	sort.Strings(badOps)
 	r.Check(len(badOps) == 0 && len(calls) >= 3, rule, "child-index-is-element-plus-counter", p.Pos(mw.Pos()), fmt.Sprintf("%d derivation calls: the index is a path element, or a path element plus a counter", len(calls)), strings.Join(badOps, "; "))
+	// element + counter, not a running sum: a loop-carried value in the index is either not computed from
+	// itself (a path element picked in the walk) or steps by a constant (a counter); "element += counter"
+	// makes the sub-accounts advance by 1, 2, 3, ...
+	var badSum []string
+	for _, c := range calls {
+		seen := map[ssa.Value]bool{}
+		var walk func(v ssa.Value, d int)
+		walk = func(v ssa.Value, d int) {
+			if seen[v] || d > 12 {
+				return
+			}
+			seen[v] = true
+			switch x := v.(type) {
+			case *ssa.BinOp:
+				walk(x.X, d+1)
+				walk(x.Y, d+1)
+			case *ssa.Convert:
+				walk(x.X, d+1)
+			case *ssa.ChangeType:
+				walk(x.X, d+1)
+			case *ssa.Phi:
+				for _, e := range x.Edges {
+					if e == ssa.Value(x) || !an.DependsOn(e, x) {
+						walk(e, d+1)
+						continue
+					}
+					// computed from itself: must be phi + constant
+					lf := an.LinForm(e)
+					self := an.Expr(x)
+					okStep := lf[self] == 1
+					for a := range lf {
+						if a != self && a != "" {
+							okStep = false
+						}
+					}
+					if !okStep {
+						badSum = append(badSum, "the child index at "+p.Pos(an.InstrPos(c.(ssa.Instruction)))+" contains a value that is added to on every round ("+clip(an.Anon(an.LinString(lf)), 80)+"): a running sum, not path element + counter")
+					}
+				}
+			}
+		}
+		walk(c.Common().Args[1], 0)
+	}
+	sort.Strings(badSum)
+	r.Check(len(badSum) == 0, rule, "child-index-is-not-a-running-sum", p.Pos(mw.Pos()), "loop-carried parts of the index are path elements or constant-step counters", strings.Join(badSum, "; "))
 	// the hardened marker: 0x80000000 is OR-ed in under the "'" suffix test
 	okH := false
 	for _, b := range mw.Blocks {
